@@ -19,12 +19,12 @@ RULE = ('slerp: endpoint p from the shared unit-quaternion mixture, q = +-(p rot
         'sequences (steps <= 20 deg, length 4-40) with 0-4 disjoint interior NaN runs and a random sign-flip pattern through '
         'QuaternionArray.slerp_nan (inplace and not) and get_nan_intervals: no NaN left, valid rows unchanged up to sign, gap row '
         'k of m equals the own great-arc interpolant at k/(m+1) of its neighbours. jumps (steps up to 100 deg): remove_jumps / q_correct give rows '
-        'equal to +- the input rows with all consecutive dot products > 0. Non-trivial: Omega>=0.1 with >=3 weights, >=2 gaps, '
+        'equal to +- the input rows with all consecutive dot products > 0. history: one QuaternionArray goes through 3-8 generated operations (in-place sign flips of row blocks, rows set to NaN, slerp_nan in place / as a copy, remove_jumps): every finite row stays +- its rotation and after EVERY remove_jumps consecutive finite rows have positive dot products. Non-trivial: Omega>=0.1 with >=3 weights, >=2 gaps, '
         'or >=2 flips; distinct = case hash.')
 ASSUMPTIONS = ['orientation.slerp is given ndarrays (it uses the @ operator), quaternion.slerp lists or ndarrays',
                'NaN runs are interior (the statement speaks of neighbouring valid rows)']
 REQUIRED_LABELS = ['slerp:cls=lerp', 'slerp:cls=straddle', 'slerp:cls=antipodal', 'slerp:cls=generic',
-                   'nan_fill:gaps=0', 'nan_fill:gaps>=2', 'jumps:flips>=2']
+                   'nan_fill:gaps=0', 'nan_fill:gaps>=2', 'jumps:flips>=2', 'history:remove_jumps_again_on_same_object', 'history:op=slerp_nan_inplace']
 PI = math.pi
 
 
@@ -325,6 +325,92 @@ def eval_jumps(case, ctx):
         judge('q_correct', out)
 
 
+# ------------------------------------------------------------------ one object, several operations
+
+def _history_case():
+    @st.composite
+    def build(draw):
+        seq = draw(smooth_sequence(6, 30))
+        seq['max_step_deg'] = draw(st.sampled_from([20.0, 60.0]))
+        n = seq['n']
+        flips = draw(st.lists(gen.signs(), min_size=n, max_size=n))
+        ops = []
+        for _ in range(draw(st.integers(2, 7))):
+            kind = draw(st.sampled_from(['remove_jumps', 'remove_jumps', 'flip', 'flip', 'nan', 'slerp_nan_inplace', 'slerp_nan_copy']))
+            if kind in ('flip', 'nan'):
+                a = draw(st.integers(1, n-2))
+                b = draw(st.integers(a+1, min(n-1, a+5)))
+                ops.append([kind, a, b])
+            else:
+                ops.append([kind])
+        ops.append(['remove_jumps'])
+        return {'seq': seq, 'flips': flips, 'ops': ops}
+    return build()
+
+
+def eval_history(case, ctx):
+    """One QuaternionArray lives through a generated list of operations: in-place sign flips of row blocks (Q[a:b] *= -1),
+    rows set to NaN, slerp_nan in place or not, remove_jumps.  Invariants: every finite row stays +- the row of the model (the
+    rotations never change; gap rows filled by slerp_nan become part of the model), and right after EVERY remove_jumps all
+    consecutive finite rows have a positive dot product -- whatever was done to the object before."""
+    from ahrs import QuaternionArray
+    seq = _seq(case)
+    n = len(seq)
+    data = seq*np.array(case['flips'], dtype=float)[:, None]
+    ok, Q = ctx.call('QuaternionArray', lambda: QuaternionArray(np.array(data)))
+    if not ok:
+        return
+    model = np.array(seq)                      # rotation of each row, up to sign; NaN rows where the object holds NaN
+    calls = 0
+    for step, op in enumerate(case['ops']):
+        kind = op[0]
+        ctx.label(f'op={kind}')
+        if kind == 'flip':
+            Q[op[1]:op[2]] *= -1.0
+        elif kind == 'nan':
+            Q[op[1]:op[2]] = np.nan
+            model[op[1]:op[2]] = np.nan
+        elif kind == 'remove_jumps':
+            ok, _ = ctx.call('remove_jumps', lambda: Q.remove_jumps())
+            if not ok:
+                return
+            calls += 1
+            if calls >= 2:
+                ctx.label('remove_jumps_again_on_same_object')
+            A = np.array(np.asarray(Q.array), dtype=float)
+            fin = np.all(np.isfinite(A), axis=1)
+            for k in range(n-1):
+                if fin[k] and fin[k+1] and float(np.dot(A[k], A[k+1])) <= 0:
+                    ctx.fail('jump_left_after_remove_jumps', f'rows {k},{k+1} after step {step} of {[o[0] for o in case["ops"]]}')
+                    return
+        else:
+            inplace = kind == 'slerp_nan_inplace'
+            before = np.array(np.asarray(Q.array), dtype=float)
+            ok, out = ctx.call('slerp_nan', lambda: Q.slerp_nan(inplace=inplace))
+            if not ok:
+                return
+            if inplace:
+                filled = np.array(np.asarray(Q.array), dtype=float)
+                gaps = np.isnan(model).any(axis=1)
+                if np.any(np.isnan(filled)):
+                    ctx.fail('slerp_nan_left_nan', f'step {step}')
+                    return
+                model[gaps] = filled[gaps]          # judged on the arc by the nan_fill sub-check; here they join the model
+            else:
+                after = np.array(np.asarray(Q.array), dtype=float)
+                if not np.array_equal(after, before, equal_nan=True):
+                    ctx.fail('slerp_nan_copy_changed_the_object', f'step {step}')
+                    return
+        A = np.array(np.asarray(Q.array), dtype=float)
+        for k in range(n):
+            if np.isnan(model[k]).any():
+                continue
+            if not np.all(np.isfinite(A[k])) or min(_maxabs(A[k], model[k]), _maxabs(A[k], -model[k])) > 1e-12:
+                ctx.fail('row_is_no_longer_the_same_rotation', f'row {k} after step {step} ({kind})')
+                return
+    ctx.nt(calls >= 2)
+
+
 def selftest():
     oracle.selftest()
     # numeric justification of the LERP-branch speed bound Omega^3/32 (max deviation measured ~0.0160*Omega^3)
@@ -337,4 +423,5 @@ SUBCHECKS = {
     'slerp': Sub(lambda tier: _slerp_case(), eval_slerp, quick=30000, thorough=500000),
     'nan_fill': Sub(lambda tier: _nan_case(), eval_nan, quick=12000, thorough=200000),
     'jumps': Sub(lambda tier: _jump_case(), eval_jumps, quick=12000, thorough=200000),
+    'history': Sub(lambda tier: _history_case(), eval_history, quick=8000, thorough=200000),
 }
